@@ -37,6 +37,9 @@ structure Cfg where
   family-mutex section that looks the database up?  (`false` for `GetOrCreateMemoryDatabase(...)`
   followed by an unprotected `db.AcquireWrite()`). -/
   atomicAcquire : Bool
+  /-- `replicator.IgnoreMessage` acknowledges an unusable entry only when it is the NEXT one after the
+  acknowledged position (`currentAck+1 == replicaIdx`); `false` stands for `currentAck < replicaIdx`. -/
+  ignoreExact : Bool
 deriving DecidableEq, Repr
 
 /-- a row in a memory database / data file: the log entry it came from and the names it uses -/
@@ -131,7 +134,7 @@ deriving DecidableEq, Repr
 
 structure St where
   -- durable -----------------------------------------------------------------------------
-  log : List (Nat × Nat)        -- payload of entry `i` (queue sequence `i`)
+  log : List (Option (Nat × Nat))  -- payload of entry `i` (queue sequence `i`); `none`: bytes that do not decompress
   gcLow : Int                   -- entries below were truncated by `queue.GC`
   consumed : Int                -- consumer group meta page (mmap store survives a process crash)
   groupAck : Int
@@ -161,6 +164,7 @@ def St.appended (st : St) : Int := (st.log.length : Int) - 1
 
 inductive Ev
   | append (m t : Nat)   -- partition.WriteLog / queue.Put
+  | appendBad            -- a log entry whose payload is not a snappy block (Replica: Uncompress fails)
   | applyBegin           -- partition.replica: Consume, GetMessage; Replica: ValidateSequence
   | applyTake            -- WriteRows: GetOrCreateMemoryDatabase (family mutex)
   | applyAcquire         -- WriteRows: db.AcquireWrite()
@@ -192,7 +196,14 @@ def ackOpt (st : St) (o : Option Int) : St :=
   | none => st
 
 def doAppend (st : St) (m t : Nat) : St :=
-  { st with log := st.log ++ [(m, t)] }
+  { st with log := st.log ++ [some (m, t)] }
+
+def doAppendBad (st : St) : St :=
+  { st with log := st.log ++ [none] }
+
+/-- `replicator.IgnoreMessage(replicaIdx)`: acknowledge the unusable entry if it is the next one -/
+def ignoreMsg (cfg : Cfg) (st : St) (s : Int) : St :=
+  if (if cfg.ignoreExact then st.groupAck + 1 = s else st.groupAck < s) then ackTo st s else st
 
 /-- `ValidateSequence`: leader absent from the map, or `seq > f.seq[leader]` -/
 def validSeq (st : St) (s : Int) : Bool :=
@@ -201,21 +212,24 @@ def validSeq (st : St) (s : Int) : Bool :=
   | some q => decide (q < s)
 
 /-- the part of `partition.replica` after `consumerGroup.consume` stored the new head `s` -/
-def beginAt (st : St) (s : Int) : St :=
+def beginAt (cfg : Cfg) (st : St) (s : Int) : St :=
   if s < st.gcLow then
     -- GetMessage fails: replicator.IgnoreMessage(seq)
-    if st.groupAck + 1 = s then ackTo st s else st
+    ignoreMsg cfg st s
   else
     match st.log[s.toNat]? with
     | none => st
-    | some (m, t) =>
+    | some (some (m, t)) =>
       if validSeq st s then
         { st with inflight := some (InFlight.fresh s m t) }
       else st                                     -- rejected: returns before the deferred commit
+    | some none =>
+      -- Uncompress fails: the deferred function runs IgnoreMessage(seq) and CommitSequence(seq)
+      if validSeq st s then { ignoreMsg cfg st s with seq := some s } else st
 
-def doApplyBegin (st : St) : St :=
+def doApplyBegin (cfg : Cfg) (st : St) : St :=
   if st.inflight.isNone ∧ st.consumed + 1 ≤ st.appended then
-    beginAt { st with consumed := st.consumed + 1 } (st.consumed + 1)
+    beginAt cfg { st with consumed := st.consumed + 1 } (st.consumed + 1)
   else st
 
 def addNames (st : St) (m t : Nat) : St :=
@@ -340,7 +354,8 @@ def step (cfg : Cfg) (st : St) (e : Ev) : St :=
   | .recover => if st.phase = .down then doRecover st else st
   | .rewind => if st.phase = .opened then doRewind st else st
   | .append m t => whenRunning st (if st.walGone then st else doAppend st m t)
-  | .applyBegin => whenRunning st (if st.walGone then st else doApplyBegin st)
+  | .appendBad => whenRunning st (if st.walGone then st else doAppendBad st)
+  | .applyBegin => whenRunning st (if st.walGone then st else doApplyBegin cfg st)
   | .applyTake => whenRunning st (doApplyTake cfg st)
   | .applyAcquire => whenRunning st (doApplyAcquire st)
   | .applyWrite => whenRunning st (doApplyWrite st)
